@@ -33,7 +33,7 @@ theorem pImmOrPFloat_body [FloatLit F] (tag : Str) (b : Body) (x : IR (FltLit F)
       intro h
       rcases h with h | h | h
       · exact n.notInf h
-      · have := n.alpha; rw [h] at this; simp [firstIsAlphabetic, isAlphabetic] at this
+      · have := n.alpha; rw [h] at this; exact absurd this (by decide)
       · exact n.notNaN h
     simp [pImmOrPFloat, P.bind_def, peekText_body _ _ _ hb, h3, n.alpha, P.ofR,
       pNodeId_body _ _ _ hb, irFloatS, pure_apply]
@@ -324,5 +324,108 @@ theorem pIntConverter_render [FloatLit F] (m : IntConverterM F) (st : St F) :
     pFormula_body _ _ m.formulaTo (textView_tb _), pFormula_body _ _ m.formulaFrom (textView_tb _),
     pNodeId_node, parseIf_optString, parseIf_optTable _ _ lookup_intRepr,
     parseIf_optTable_last _ _ lookup_slope, pure_apply]
+
+
+/-! ### Enumeration -/
+
+theorem parseIf_optF64 [FloatLit F] (tag : Str) (v : Option (FltLit F)) (segs : List Seg) (st : St F)
+    (h : canStart tag segs = false) :
+    parseIf tag pF64 (flat (.opt tag (v.map fun b => tb b.text) :: segs)) st =
+      .ok (v.map FltLit.val, flat segs, st) :=
+  parseIf_optPure tag pF64 (fun b : FltLit F => tb b.text) FltLit.val
+    (fun a rest st => pF64_body tag _ a (textView_tb _) rest st) v segs st h
+
+theorem pEnumEntry_body [FloatLit F] (e : EnumEntryM F) (st : St F) :
+    pEnumEntry e.body.1 e.body.2 st = .ok ((specEnumEntry e st).1, [], (specEnumEntry e st).2) := by
+  have h := fun st => pElemBase_segs (F := F) e.elem []
+    [ .one cs!"Value" (tb e.value.text),
+      .opt cs!"NumericValue" (e.numericValue.map fun l => tb l.text),
+      .opt cs!"IsSelfClearing" (e.isSelfClearing.map fun b => tb b.text) ] st (by rfl)
+  simp (config := { maxDischargeDepth := 3 }) [pEnumEntry, EnumEntryM.body, P.bind_def, name_render,
+    ofOpt, P.ofR, freshId, intern, attrRest_render, h, pI64_node, parseIf_optF64, parseIfD_def,
+    parseIf_optBool_last, canStart, specEnumEntry, internS, pure_apply]
+
+theorem storeNode_eq (pr : Profile) (id : Nat) (d : NodeData F) (cur : Cur) (st : St F) :
+    storeNode pr id d cur st = (storeNodeS pr id d st).bind fun st' => .ok ((), cur, st') := by
+  unfold storeNode storeNodeS
+  split <;> rfl
+
+theorem pEnumEntryStep_hit [FloatLit F] (pr : Profile) (e : EnumEntryM F) (rest : Cur) (st : St F) :
+    pEnumEntryStep pr (mkNode cs!"EnumEntry" e.body :: rest) st =
+      (storeNodeS pr (specEnumEntry e st).1.attr.id (.enumEntry (specEnumEntry e st).1)
+        (specEnumEntry e st).2).bind fun st' =>
+          .ok (some (specEnumEntry e st).1.attr.id, rest, st') := by
+  simp only [pEnumEntryStep, P.bind_def, nextIf_hit, Res.bind_ok', onChild, pEnumEntry_body,
+    storeNode_eq]
+  cases storeNodeS pr (specEnumEntry e st).1.attr.id (.enumEntry (specEnumEntry e st).1)
+      (specEnumEntry e st).2 <;> simp [pure_apply]
+
+theorem pEnumEntryStep_skip [FloatLit F] (pr : Profile) (segs : List Seg) (st : St F)
+    (h : canStart cs!"EnumEntry" segs = false) :
+    pEnumEntryStep pr (flat segs) st = .ok (none, flat segs, st) := by
+  simp [pEnumEntryStep, P.bind_def, nextIf_skip _ segs st h, pure_apply]
+
+theorem whileSome_enumEntries [FloatLit F] (pr : Profile) (es : List (EnumEntryM F))
+    (segs : List Seg) (st : St F) (h : canStart cs!"EnumEntry" segs = false) (n : Nat)
+    (hn : (flat (.many cs!"EnumEntry" (es.map EnumEntryM.body) :: segs)).length + 1 ≤ n) :
+    whileSome (pEnumEntryStep pr) n (flat (.many cs!"EnumEntry" (es.map EnumEntryM.body) :: segs)) st =
+      (enumEntriesS pr es st).bind fun r => .ok (r.1, flat segs, r.2) := by
+  induction es generalizing st n with
+  | nil =>
+    cases n with
+    | zero => omega
+    | succ n => simp [whileSome, pEnumEntryStep_skip pr segs st h, enumEntriesS]
+  | cons e es ih =>
+    cases n with
+    | zero => omega
+    | succ n =>
+      have hle' : (flat (Seg.many cs!"EnumEntry" (List.map EnumEntryM.body es) :: segs)).length + 1 ≤ n := by
+        simp at hn ⊢; omega
+      simp only [List.map_cons, flat_many_cons, whileSome, pEnumEntryStep_hit, enumEntriesS]
+      cases storeNodeS pr (specEnumEntry e st).1.attr.id (.enumEntry (specEnumEntry e st).1)
+          (specEnumEntry e st).2 with
+      | ok st' =>
+        simp only [Res.bind_ok', ih _ _ hle']
+        cases enumEntriesS pr es st' <;> simp
+      | err x => rfl
+      | panic => rfl
+
+theorem pEnumeration_render [FloatLit F] (pr : Profile) (m : EnumerationM F) (st : St F) :
+    pEnumeration pr m.attr.render m.children st =
+      (specEnumeration pr m st).bind fun r => .ok (r.1, [], r.2) := by
+  have h := pElemBase_segs m.elem []
+    [ .opt cs!"Streamable" (m.streamable.map fun b => tb b.text),
+      .many cs!"EnumEntry" (m.entries.map EnumEntryM.body),
+      .one2 cs!"Value" cs!"pValue" (irBody IntLit.text m.value),
+      .many cs!"pSelected" (m.pSelected.map tb),
+      .opt cs!"PollingTime" (m.pollingTime.map fun l => tb l.text) ]
+    (specAttr m.attr st).2 (by rfl)
+  have e1 := fun st n hn => whileSome_enumEntries (F := F) pr m.entries
+    [ .one2 cs!"Value" cs!"pValue" (irBody IntLit.text m.value),
+      .many cs!"pSelected" (m.pSelected.map tb),
+      .opt cs!"PollingTime" (m.pollingTime.map fun l => tb l.text) ] st (by rfl) n hn
+  have hlen : (flat (Seg.many cs!"EnumEntry" (m.entries.map EnumEntryM.body) ::
+      [ Seg.one2 cs!"Value" cs!"pValue" (irBody IntLit.text m.value),
+        Seg.many cs!"pSelected" (m.pSelected.map tb),
+        Seg.opt cs!"PollingTime" (m.pollingTime.map fun l => tb l.text) ])).length + 1 ≤
+      m.children.length + 1 := by
+    have := length_flat_cons_ge (.opt cs!"Streamable" (m.streamable.map fun b => tb b.text))
+      (Seg.many cs!"EnumEntry" (m.entries.map EnumEntryM.body) ::
+      [ Seg.one2 cs!"Value" cs!"pValue" (irBody IntLit.text m.value),
+        Seg.many cs!"pSelected" (m.pSelected.map tb),
+        Seg.opt cs!"PollingTime" (m.pollingTime.map fun l => tb l.text) ])
+    simp only [EnumerationM.children, flat_append, List.length_append]
+    omega
+  have e1' := fun st => e1 st _ hlen
+  simp only [EnumerationM.children] at e1' ⊢
+  simp (config := { maxDischargeDepth := 3 }) only [pEnumeration, P.bind_def, pAttrBase_render,
+    Res.bind_ok', h, parseIfD_def, parseIf_optBool, canStart, e1', specEnumeration]
+  simp (config := { maxDischargeDepth := 3 }) [parseIf_optBool, canStart, e1']
+  cases enumEntriesS pr m.entries (specElem m.elem [] (specAttr m.attr st).2).2 with
+  | ok en =>
+    simp (config := { maxDischargeDepth := 3 }) [pImmOrPIntegerId_ir, parseWhile_manyNodeId,
+      parseIf_optU64_last, canStart, pure_apply]
+  | err x => rfl
+  | panic => rfl
 
 end CamVerif.XmlParse
